@@ -68,6 +68,22 @@ type Rule struct {
 	group *RuleGroup // only set at runtime, no need to {,un}marshal or persist.
 }
 
+// Clone returns a copy of the rule that shares no slice with it. Clone of nil is nil.
+func (r *Rule) Clone() *Rule {
+	if r == nil {
+		return nil
+	}
+	clone := *r
+	clone.StartKey = append(r.StartKey[:0:0], r.StartKey...)
+	clone.EndKey = append(r.EndKey[:0:0], r.EndKey...)
+	clone.LocationLabels = append(r.LocationLabels[:0:0], r.LocationLabels...)
+	clone.LabelConstraints = append(r.LabelConstraints[:0:0], r.LabelConstraints...)
+	for i := range clone.LabelConstraints {
+		clone.LabelConstraints[i].Values = append(clone.LabelConstraints[i].Values[:0:0], clone.LabelConstraints[i].Values...)
+	}
+	return &clone
+}
+
 func (r *Rule) String() string {
 	b, _ := json.Marshal(r)
 	return string(b)
